@@ -633,7 +633,7 @@ fn dims(thorough: bool) -> Dims {
   if thorough {
     Dims {
       r: vec!["one", "two", "multi"],
-      u: vec!["none", "direct", "all", "any", "not", "inside", "has", "chain2", "chain3", "utilvar", "ofrule"],
+      u: vec!["none", "direct", "all", "any", "not", "inside", "has", "chain2", "chain3", "utilvar", "ofrule", "ofrulevar"],
       k: vec!["none", "regex", "two", "bindc", "matches"],
       t: vec!["none", "substring", "replace", "convert", "chain2", "chain3", "chain2r", "chain3r", "fromc", "indep"],
       w: vec!["none", "one", "two", "nested", "outer"],
@@ -643,7 +643,7 @@ fn dims(thorough: bool) -> Dims {
   } else {
     Dims {
       r: vec!["one", "two", "multi"],
-      u: vec!["none", "direct", "all", "any", "not", "inside", "has", "chain2", "chain3", "utilvar", "ofrule"],
+      u: vec!["none", "direct", "all", "any", "not", "inside", "has", "chain2", "chain3", "utilvar", "ofrule", "ofrulevar"],
       k: vec!["none", "two", "bindc", "matches"],
       t: vec!["none", "chain2", "chain3", "chain2r", "chain3r", "fromc"],
       w: vec!["none", "one", "two", "nested", "outer"],
@@ -744,6 +744,13 @@ fn build_base(r: &str, u: &str, k: &str, t: &str, w: &str, fc: &str, ff: &str) -
       rule["matches"] = json!("callee");
       singles.push("F");
       first_util = Some("callee");
+    }
+    "ofrulevar" => {
+      // a variable bound ONLY inside nthChild.ofRule: accepted by the checker (it is defined), so it
+      // must be bound when the rule matches
+      rule["nthChild"] = json!({"position": 1, "ofRule": {"has": {"field": "function", "pattern": "$G"}}});
+      singles.push("G");
+      first_util = None;
     }
     _ => {
       // "ofrule": the first call among the sibling calls
